@@ -159,6 +159,10 @@ func (r *generateReader) ReadByte() (byte, error) {
 	case '\\':
 		if r.escape {
 			r.escape = false
+			// An escaped backslash stays one for the zone parser: handing on a single
+			// backslash would escape the next character there, and move the end of a
+			// quoted string (and with it the end of the generated entry).
+			r.mod.WriteByte('\\')
 			return '\\', nil
 		}
 
